@@ -61,6 +61,38 @@ Fixpoint leaves (m : mtree) : list trace :=
   | Node l r => leaves l ++ leaves r
   end.
 
+(* ---------- the instruction part of ExecutionTrace.merge ---------- *)
+(* executed_instructions (each instruction abstracted to a tag) and executed_assertions as
+   (trace_position, assertion id).  merge appends the instructions and appends COPIES of the merged-in
+   assertions shifted by len(self.executed_instructions); the merged-in trace is not changed (the model
+   is a function; the correspondence checks it on the implementation by digests). *)
+Record itrace := { instrs : list Z; asserts : list (Z * Z) }.
+Definition ilen (t : itrace) : Z := Z.of_nat (length (instrs t)).
+Definition shift_asserts (k : Z) (l : list (Z * Z)) : list (Z * Z) := map (fun pa => (fst pa + k, snd pa)) l.
+Definition imerge (a b : itrace) : itrace :=
+  {| instrs := instrs a ++ instrs b; asserts := asserts a ++ shift_asserts (ilen a) (asserts b) |}.
+Definition iempty : itrace := {| instrs := []; asserts := [] |}.
+Definition imerge_all (ts : list itrace) : itrace := fold_left imerge ts iempty.
+
+Inductive itree := ILeaf (t : itrace) | INode (l r : itree).
+Fixpoint ieval (m : itree) : itrace :=
+  match m with ILeaf t => t | INode l r => imerge (ieval l) (ieval r) end.
+Fixpoint ileaves (m : itree) : list itrace :=
+  match m with ILeaf t => [t] | INode l r => ileaves l ++ ileaves r end.
+
+(* every assertion position points into the instruction list *)
+Definition iwf (t : itrace) : bool :=
+  forallb (fun pa => (0 <=? fst pa) && (fst pa <? ilen t)) (asserts t).
+(* the instruction an assertion points to (its slicing criterion) *)
+Definition target (t : itrace) (pos : Z) : option Z := nth_error (instrs t) (Z.to_nat pos).
+
+Definition itrace_eqb (a b : itrace) : bool :=
+  Nat.eqb (length (instrs a)) (length (instrs b)) &&
+  forallb (fun p => Z.eqb (fst p) (snd p)) (combine (instrs a) (instrs b)) &&
+  Nat.eqb (length (asserts a)) (length (asserts b)) &&
+  forallb (fun p => Z.eqb (fst (fst p)) (fst (snd p)) && Z.eqb (snd (fst p)) (snd (snd p)))
+          (combine (asserts a) (asserts b)).
+
 (* ---------- "b is at least as good as a" for every suite-level coverage and fitness function ---- *)
 Definition improves (a b : trace) (r : registry) : Prop :=
   (branch_coverage a r <= branch_coverage b r)%Q /\
@@ -120,6 +152,8 @@ Record case := {
   c_reg : registry;
   c_ex_code : list Z; c_ex_true : list Z; c_ex_false : list Z;
   c_tree : mtree;
+  c_itree : itree;                    (* the same script on the instruction parts of the leaves *)
+  c_iobserved : itrace;               (* instruction tags and assertion positions of the merged trace *)
   c_observed : trace;                 (* projection of the implementation's merged trace *)
   c_valid : bool;                     (* harness-side claim: all leaves are valid for c_reg *)
   c_metrics : option metrics;
@@ -140,6 +174,8 @@ Definition check_metrics (c : case) (t : trace) (m : metrics) : bool :=
 Definition check_case (c : case) : bool :=
   let t := eval (c_tree c) in
   trace_wf t && trace_wf (c_observed c) && trace_eqb t (c_observed c) &&
+  itrace_eqb (ieval (c_itree c)) (c_iobserved c) &&
+  (if forallb iwf (ileaves (c_itree c)) then iwf (c_iobserved c) else true) &&
   (* the harness's validity claim agrees with the model's [valid] on every leaf, and the merged
      trace of valid leaves is valid (what the theorems say) *)
   Bool.eqb (forallb (fun l => valid l (c_reg c)) (leaves (c_tree c))) (c_valid c) &&
